@@ -771,9 +771,10 @@ theorem call_user (f : Nat) (ihB : ∀ r st, BlockGoal img ⟨some (r, st), K.ro
     · show t2.stack = _
       rw [h2, hstk]
   · -- the body returns
-    refine ((ihBR (pc + (genCall g ps as).length - 1) s.stack) rt.body hfrag _ s2 t addr 0 [] ht.2 ht.1 hcb hex).mono fun t1 ht1 => ?_
+    refine ((ihBR (pc + (genCall g ps as).length - 1) s.stack) rt.body hfrag _ s2 t addr 0 [] ht.2 ht.1
+      hcb hex).mono fun t1 ht1 => ?_
     have := ht1.toSim (Kc := K) (pc + (genCall g ps as).length - 1) stk σ.locals
-      (by simp only [calleeCtx]; rw [hstk]) sim.locals.1 rfl sim.loops
+      (by rw [hstk]) sim.locals.1 rfl sim.loops
     have e : pc + (genCall g ps as).length - 1 + 1 = pc + (genCall g ps as).length := by omega
     rw [e] at this
     exact this
